@@ -114,6 +114,15 @@ func ParseLog(r io.Reader) ([]Event, error) {
 			}
 			continue
 		}
+		if i := strings.LastIndex(rest, "<pid changed to "); i >= 0 && strings.HasSuffix(rest, " ...>") {
+			// execve called by a thread that is not the leader: the call is reported as finished under the leader's id
+			np, err := strconv.Atoi(strings.TrimSuffix(rest[i+len("<pid changed to "):], " ...>"))
+			if err != nil {
+				return nil, fmt.Errorf("line %d: malformed pid change: %.120s", ln, rest)
+			}
+			pending[np] = rest[:i]
+			continue
+		}
 		if strings.HasSuffix(rest, "<unfinished ...>") {
 			head := strings.TrimSuffix(rest, "<unfinished ...>")
 			pending[pid] = head
@@ -135,6 +144,16 @@ func ParseLog(r io.Reader) ([]Event, error) {
 				return nil, fmt.Errorf("line %d: malformed resumed line: %.80s", ln, line)
 			}
 			head, ok := pending[pid]
+			if !ok && strings.HasPrefix(rest, "<... execve resumed>") {
+				// execve entered by another thread, finished under the leader's id
+				for op, hd := range pending {
+					if strings.HasPrefix(hd, "execve(") {
+						head, ok = hd, true
+						delete(pending, op)
+						break
+					}
+				}
+			}
 			if !ok {
 				return nil, fmt.Errorf("line %d: resumed without unfinished: %.80s", ln, line)
 			}
